@@ -25,7 +25,7 @@ type c18case struct {
 }
 
 func c18atoms() []string {
-	return []string{"a", "b", "B", ".", "[ab]", "[^a]", "(?i:a)", "ab", "ba", "^", "$", `\b`, `\A`, `\z`}
+	return []string{"a", "b", "B", ".", "[ab]", "[^a]", "(?i:a)", "ab", "ba", "^", "$", `\b`, `\A`, `\z`, "(?:ab)*", "(?:ba)+?", "(?:a|ab)*"}
 }
 
 // expressions up to a given number of composition steps
@@ -41,6 +41,16 @@ func c18exprs(depth int) []string {
 			seen[e] = true
 			*next = append(*next, e)
 			all = append(all, e)
+		}
+	}
+	// sandwiches: something in front of a loop and something behind it (what is collected in front of a loop must not
+	// be taken for part of a constant suffix)
+	for _, l := range []string{"(?:ab)*", "(?:ba)+?", "(?:a|ab)*", "(?:ab)*?", "(?:b)+", "(?:ab){1,2}"} {
+		for _, pre := range []string{"a", "b", "x", "ab", ""} {
+			for _, post := range []string{"a", "b", "ab", "ba", "$", "b$"} {
+				var dummy []string
+				add(pre+l+post, &dummy)
+			}
 		}
 	}
 	for d := 0; d < depth; d++ {
